@@ -231,22 +231,61 @@ def check_stencils(rep, prog, m):
                        what='central stencil only for non-zero, not one-sided parameters: %s' % t)
     # step rule identical in get_hess / get_grad
     gh = prog.func(GOD, 'get_hess')
-    s1 = [n for n in gh.body if isinstance(n, ast.For) and 'eps_in' in ast.unparse(n)]
-    s2 = [n for n in gg.body if isinstance(n, ast.For) and 'eps_in' in ast.unparse(n)]
-    ok = len(s1) == 1 and len(s2) == 1 and ast.dump(s1[0]) == ast.dump(s2[0])
-    rep.ob('R-TPL', 'step rule', ok, 'get_hess and get_grad compute eps / one_sided with identical loops', rel, gh.lineno, what='sibling step rules agree')
-    if s1:
-        # eps = eps_in*pval, or eps_in when pval == 0 or pval*eps_in < 1e-6 (then one-sided)
-        txt = ast.unparse(s1[0])
-        ok = 'eps[i] = eps_in * pval' in txt and txt.count('eps[i] = eps_in\n') + txt.count('eps[i] = eps_in') >= 3 and 'one_sided[i] = True' in txt
-        rep.ob('R-TPL', 'step rule', ok, 'relative step eps*p, absolute step eps for zero or tiny parameters (flagged one-sided)', rel, s1[0].lineno,
+
+    def step_loop(fn):
+        """the loop that turns the fractional step into absolute steps: roles of the names it uses, whatever they are called
+        (A = array of steps, S = fractional step, O = one-sided flags), or None"""
+        sing = single_assignments(fn)
+        for n in fn.body:
+            if not (isinstance(n, ast.For) and ast.unparse(n.iter) == 'enumerate(p0)' and isinstance(n.target, ast.Tuple) and len(n.target.elts) == 2 and len(n.body) == 1):
+                continue
+            iv, pv = [ast.unparse(x) for x in n.target.elts]
+            top = n.body[0]
+            if not (isinstance(top, ast.If) and ast.unparse(top.test) == '%s != 0' % pv and len(top.body) == 1 and len(top.orelse) == 1 and isinstance(top.body[0], ast.If)):
+                continue
+            inner = top.body[0]
+            t = inner.test
+            if not (isinstance(t, ast.Compare) and len(t.ops) == 1 and isinstance(t.ops[0], ast.Lt) and isinstance(t.left, ast.BinOp) and isinstance(t.left.op, ast.Mult)
+                    and ast.unparse(t.comparators[0]) == '1e-06'):
+                continue
+            ops = [ast.unparse(t.left.left), ast.unparse(t.left.right)]
+            if pv not in ops:
+                continue
+            S = ops[1 - ops.index(pv)]
+            z = top.orelse[0]
+            if not (isinstance(z, ast.Assign) and isinstance(z.targets[0], ast.Subscript) and ast.unparse(z.targets[0].slice) == iv and ast.unparse(z.value) == S):
+                continue
+            A = ast.unparse(z.targets[0].value)
+            tiny = sorted(ast.unparse(x) for x in inner.body)
+            flags = [x for x in inner.body if isinstance(x, ast.Assign) and ast.unparse(x.value) == 'True' and isinstance(x.targets[0], ast.Subscript) and ast.unparse(x.targets[0].slice) == iv]
+            if len(flags) != 1 or len(inner.body) != 2:
+                continue
+            O = ast.unparse(flags[0].targets[0].value)
+            if tiny != sorted(['%s[%s] = %s' % (A, iv, S), '%s[%s] = True' % (O, iv)]):
+                continue
+            rel_ = inner.orelse
+            if not (len(rel_) == 1 and ast.unparse(rel_[0]) in ('%s[%s] = %s * %s' % (A, iv, S, pv), '%s[%s] = %s * %s' % (A, iv, pv, S))):
+                continue
+            # S is the fractional step handed to the function: its eps parameter, or a copy of it taken before A took over the name
+            s_ok = (S == 'eps' and A != 'eps') or (S in sing and ast.unparse(sing[S]) == 'eps')
+            inits = {ast.unparse(x.targets[0]): ast.unparse(x.value) for x in fn.body[:fn.body.index(n)] if isinstance(x, ast.Assign) and len(x.targets) == 1}
+            i_ok = inits.get(A) == 'numpy.empty([len(p0)])' and inits.get(O) == '[False] * len(p0)'
+            return {'A': A, 'S': S, 'O': O, 'node': n, 'ok': s_ok and i_ok}
+        return None
+    r1, r2 = step_loop(gh), step_loop(gg)
+    ok = r1 is not None and r2 is not None and r1['ok'] and r2['ok']
+    rep.ob('R-TPL', 'step rule', ok, 'get_hess and get_grad compute the absolute steps / one_sided flags with the same rule' + ('' if r1 and r2 else ' (the loop over enumerate(p0) was not found in %s)' %
+           ' and '.join(f for f, r in (('get_hess', r1), ('get_grad', r2)) if r is None)), rel, gh.lineno, what='sibling step rules agree')
+    if r1:
+        rep.ob('R-TPL', 'step rule', r1['ok'], 'relative step eps*p, absolute step eps for zero or tiny parameters (flagged one-sided); steps in %s, flags in %s' % (r1['A'], r1['O']), rel, r1['node'].lineno,
                what='step sizes: relative, absolute for zero/tiny parameters')
     # symmetrisation and argument wiring in get_hess
     calls = [n for n in own_nodes(gh) if isinstance(n, ast.Call) and dotted(n.func) == 'hessian_elem']
     okw = False
-    if calls:
+    if calls and r1:
         b, problems = bind_call(he, calls[0])
-        okw = not problems and all(ast.unparse(b[k]) == k for k in ('func', 'f0', 'p0', 'ii', 'jj', 'eps', 'args', 'one_sided') if k in b) and len(b) == 8
+        want = {'func': 'func', 'f0': 'f0', 'p0': 'p0', 'ii': 'ii', 'jj': 'jj', 'eps': r1['A'], 'args': 'args', 'one_sided': r1['O']}
+        okw = not problems and all(ast.unparse(b[k]) == want[k] for k in want if k in b) and len(b) == 8
     rep.ob('R-ARGS', 'get_hess -> hessian_elem', okw, ast.unparse(calls[0]) if calls else 'no call', rel, calls[0].lineno if calls else gh.lineno, what='arguments forwarded by name')
     sym = [n for n in own_nodes(gh) if isinstance(n, ast.Assign) and ast.unparse(n.targets[0]).replace(' ', '') == 'hess[jj][ii]']
     oks = bool(sym) and ast.unparse(sym[0].value).replace(' ', '') == 'hess[ii][jj]'
